@@ -19,6 +19,11 @@ KEYWORD_NAMES = ["version", "enum", "impl", "for", "as", "signal", "service", "m
                  "_x", "__", "_", "A", "a1", "Z_9", "u123", "i999", "f320", "x" * 30]
 
 
+# words that are literals in other languages (booleans, null, infinities, hex-looking); here they are plain identifiers
+LITERAL_WORDS = ["true", "false", "True", "False", "null", "None", "nil", "yes", "no", "on", "off", "inf", "nan", "NaN",
+                 "e5", "x1F", "_0", "little", "big", "TRUE", "FALSE"]
+
+
 KEYWORD_PREFIXED = ["assist", "asas", "ass5_a", "as_", "format", "forS", "implement", "implcan", "modulo", "models",
                     "signals", "signalled", "enumerate", "enums", "structure2", "versions", "devices", "deviceA",
                     "serviceable", "methodical", "returnsX", "Optionals", "units", "ranges", "modx", "fork"]
@@ -29,6 +34,8 @@ def ident(r, avoid=(), type_name=False):
         c = r.random()
         if c < 0.12:
             n = r.choice(KEYWORD_NAMES)
+        elif c < 0.15:
+            n = r.choice(LITERAL_WORDS)
         elif c < 0.20:
             # one word that BEGINS with a keyword of the grammar (a lexer without word boundaries splits it)
             n = r.choice(KEYWORD_PREFIXED) + r.choice(["", "", "_1", "X"])
@@ -121,8 +128,10 @@ def gen_value(r, depth=0):
         return [gen_value(r, depth + 1) for _ in range(r.randint(1, 3))]
     if k < 0.50:
         return gen_number(r)
-    if k < 0.75:
+    if k < 0.70:
         return ("id", ident(r))
+    if k < 0.75:
+        return ("id", r.choice(LITERAL_WORDS))
     return ("s", gen_string(r))
 
 
